@@ -264,6 +264,10 @@ func receiveUnaryResponse[T any](conn StreamingClientConn) (*Response[T], error)
 	if err := conn.Receive(new(T)); err == nil {
 		return nil, NewError(CodeUnknown, errors.New("unary stream has multiple messages"))
 	} else if err != nil && !errors.Is(err, io.EOF) {
+		if connectErr, ok := asError(err); ok {
+			// Keep the more specific code (for example, canceled).
+			return nil, connectErr
+		}
 		return nil, NewError(CodeUnknown, err)
 	}
 	return &Response[T]{
